@@ -5,6 +5,9 @@ import (
 	"bytes"
 	crand "crypto/rand"
 	"encoding/hex"
+	"hash/adler32"
+	"hash/crc32"
+	"hash/fnv"
 	"io"
 	"math/big"
 
@@ -93,6 +96,11 @@ var (
 // of two and their neighbours, long runs of equal bits, sparse values, values next to
 // n), the shapes on which windowed multiplication, recoding and carry chains go wrong.
 func randScalar(r *core.Rand) *big.Int {
+	if r.Chance(1, 16) {
+		if v := montStructured(r, ref.SM2N); ref.KeyValid(v) {
+			return v
+		}
+	}
 	if r.Chance(1, 8) {
 		v := new(big.Int)
 		switch r.Intn(6) {
@@ -275,9 +283,101 @@ func residualPoint(r *core.Rand) (x, y *big.Int, kind string, ok bool) {
 	return nil, nil, "", false
 }
 
+// fingerprintTwin returns a second valid 32-byte key that differs from a first one but has
+// the same value under a common 32-bit non-cryptographic checksum of its bytes (CRC-32
+// IEEE/Castagnoli, FNV-1/1a, Adler-32): a cache of per-key data tagged with such a
+// checksum instead of the key serves the first key's data to the second. Both are
+// found by a birthday search over random keys (about 2^17 of them).
+func fingerprintTwin(r *core.Rand) (a, b []byte, kind string) {
+	kind = []string{"crc32-ieee", "crc32-castagnoli", "fnv1a-32", "fnv1-32", "adler32"}[r.Intn(5)]
+	var sum func([]byte) uint32
+	switch kind {
+	case "crc32-ieee":
+		sum = crc32.ChecksumIEEE
+	case "crc32-castagnoli":
+		t := crc32.MakeTable(crc32.Castagnoli)
+		sum = func(x []byte) uint32 { return crc32.Checksum(x, t) }
+	case "fnv1a-32":
+		sum = func(x []byte) uint32 { h := fnv.New32a(); h.Write(x); return h.Sum32() }
+	case "fnv1-32":
+		sum = func(x []byte) uint32 { h := fnv.New32(); h.Write(x); return h.Sum32() }
+	default:
+		sum = adler32.Checksum
+	}
+	seen := map[uint32][]byte{}
+	for i := 0; i < 1<<22; i++ {
+		k := r.Bytes(32)
+		k[0] &= 0x7f // well inside [1, n-2]
+		if !ref.KeyValid(ref.Int(k)) {
+			continue
+		}
+		h := sum(k)
+		if o, ok := seen[h]; ok && !bytes.Equal(o, k) {
+			return o, k, kind
+		}
+		seen[h] = k
+	}
+	panic("harness: no checksum collision among 2^22 keys")
+}
+
+// montStructured returns v in [1, mod) whose Montgomery form v*2^256 mod mod - the
+// representation 64-bit implementations compute in - has structured 64-bit limbs (all
+// ones, zero, one, top bit, 32-bit patterns, the rest random): the operand class on which
+// hand-written multi-limb arithmetic drops a carry. In plain form v looks random.
+func montStructured(r *core.Rand, mod *big.Int) *big.Int {
+	R := new(big.Int).Lsh(big.NewInt(1), 256)
+	Rinv := new(big.Int).ModInverse(R, mod)
+	for {
+		b := make([]byte, 32)
+		for j := 0; j < 4; j++ {
+			var w uint64
+			switch r.Intn(9) {
+			case 0:
+				w = ^uint64(0)
+			case 1:
+				w = ^uint64(0) - uint64(r.Intn(3))
+			case 2:
+				w = 0
+			case 3:
+				w = uint64(1 + r.Intn(2))
+			case 4:
+				w = 1 << 63
+			case 5:
+				w = 1<<63 - 1
+			case 6:
+				w = 0xffffffff
+			case 7:
+				w = 0xffffffff00000000
+			default:
+				w = r.Uint64()
+			}
+			for k := 0; k < 8; k++ {
+				b[8*(3-j)+k] = byte(w >> (8 * uint(7-k)))
+			}
+		}
+		m := ref.Int(b)
+		if m.Cmp(mod) >= 0 {
+			continue
+		}
+		v := m.Mul(m, Rinv)
+		v.Mod(v, mod)
+		if v.Sign() > 0 {
+			return v
+		}
+	}
+}
+
 // genPriv draws a valid private key, biased to the interesting encodings.
 func genPriv(r *core.Rand) []byte {
-	switch r.Weighted(10, 2, 2, 2, 2) {
+	switch r.Weighted(10, 2, 2, 2, 2, 2) {
+	case 5: // d or 1+d structured in the scalar field's Montgomery form
+		v := montStructured(r, ref.SM2N)
+		if r.Chance(1, 2) {
+			v.Sub(v, big.NewInt(1))
+		}
+		if ref.KeyValid(v) {
+			return ref.Pad32(v)
+		}
 	case 1:
 		return ref.Pad32(big.NewInt(int64(1 + r.Intn(3))))
 	case 2:
